@@ -92,8 +92,8 @@ func genLayout(t *rapid.T, label string) Layout {
 
 var (
 	elementPool = []string{"kcal", "fat", "prot", "carb", "salt", "вода", "糖", "vit c", "fibre/sol", "Kcal", "FAT", "Вода"}
-	recipePool  = []string{"bread/rye", "bread/white", "egg/boiled", "soup/veg", "soup/meat", "mix", "mix/a b", "сандвич/яйце", "r/1", "r/2", "r/3", "z/last", "a/first", "dish/x/100g", "dish/y/100g", "pie"}
-	foreignPool = []string{"coffee/cup", "tea", "candy/bar", "water/0.5l", "ядки", "Tea", "Coffee/cup", deepName}
+	recipePool  = []string{"bread/rye", "bread/white", "egg/boiled", "soup/veg", "soup/meat", "mix", "mix/a b", "сандвич/яйце", "r/1", "r/2", "r/3", "z/last", "a/first", "dish/x/100g", "dish/y/100g", "pie", "Mix", "MIX", "Pie", "R/1"}
+	foreignPool = []string{"coffee/cup", "tea", "candy/bar", "water/0.5l", "ядки", "Tea", "Coffee/cup", deepName, "mIx", "pIE", "BREAD/RYE"}
 	exactQty    = []string{"1", "2", "3", "0.5", "0.25", "1.5", "-1", "-2", "0", "10", "100", "-0.75", "4", "8"}
 	decimalQty  = []string{"0.2", "3.3", "1.1", "-0.1", "259", "0.40", "13.6", "4.29", "1e2", "-7.5", "0.07"}
 )
@@ -107,6 +107,9 @@ var (
 )
 
 // extremeQty: everything strconv.ParseFloat accepts that ordinary files never contain.
+// scaleQty: coefficients many orders of magnitude apart (a tiny amount of something very concentrated)
+var scaleQty = []string{"1e-15", "1e15", "1e-13", "1e13", "2", "0.5", "4e-14", "25e12"}
+
 var extremeQty = []string{"NaN", "1e308", "-1e308", "Inf", "-Inf", "1e-320", "-0", "9007199254740993", "1e22", "0.000001"}
 
 func genQty(t *rapid.T, label string, exactOnly bool) string {
@@ -124,6 +127,7 @@ type BookOpts struct {
 	DeepChain  int  // if > 0, force a chain with this many references
 	Boundary   bool // coefficients from boundaryBook
 	Extreme    bool // coefficients from extremeQty
+	Scales     bool // coefficients from scaleQty
 }
 
 // genBook draws a recipe book. Recipes are created in a hidden topological
@@ -166,6 +170,9 @@ func genBook(t *rapid.T, o BookOpts) []Block {
 			}
 			if o.Extreme && rapid.Bool().Draw(t, label+"_x") {
 				q = rapid.SampledFrom(extremeQty).Draw(t, label+"_xq")
+			}
+			if o.Scales {
+				q = rapid.SampledFrom(scaleQty).Draw(t, label+"_sq")
 			}
 			book[i].Items = append(book[i].Items, Item{name, q})
 		}
@@ -277,13 +284,26 @@ func genLog(t *rapid.T, book []Block, o LogOpts) []Block {
 	if o.LongDays && n > 0 {
 		pool := append(append([]string{}, foods...), foreignPool...)
 		pool = append(pool, elementPool...)
+		for i := 0; i < 60; i++ {
+			pool = append(pool, fmt.Sprintf("snack/%02d", i))
+		}
 		for k := 0; k < 2; k++ {
 			d := rapid.IntRange(0, n-1).Draw(t, fmt.Sprintf("long_day%d", k))
 			lines := rapid.IntRange(33, 80).Draw(t, fmt.Sprintf("long_day%d_lines", k))
+			distinct := rapid.Bool().Draw(t, fmt.Sprintf("long_day%d_distinct", k)) // a long day in which no food is repeated
+			used := map[string]bool{}
+			for _, it := range days[d].Items {
+				used[it.Name] = true
+			}
 			for len(days[d].Items) < lines {
 				j := len(days[d].Items)
 				name := rapid.SampledFrom(pool).Draw(t, fmt.Sprintf("ld%d_%d", k, j))
-				if j > 0 && rapid.IntRange(0, 3).Draw(t, fmt.Sprintf("ld%d_%d_rep", k, j)) == 3 {
+				if distinct {
+					for tries := 0; used[name] && tries < len(pool); tries++ {
+						name = pool[(tries*7+j)%len(pool)]
+					}
+					used[name] = true
+				} else if j > 0 && rapid.IntRange(0, 3).Draw(t, fmt.Sprintf("ld%d_%d_rep", k, j)) == 3 {
 					name = days[d].Items[j-1].Name // repeats the line just before
 				}
 				q := "1"
@@ -344,6 +364,7 @@ var shapes = []Shape{
 	{"lint log", []string{"lint", "@LOG"}, true, false, false, false, true},
 	{"lint -s log", []string{"lint", "-s", "@LOG"}, true, false, false, false, true},
 	{"lint db", []string{"lint", "@DB"}, false, true, false, false, true},
+	{"lint db log", []string{"lint", "@DB", "@LOG"}, false, true, false, false, true},
 	{"gen man", []string{"gen", "man"}, false, false, false, false, false},
 	{"gen markdown", []string{"gen", "markdown"}, false, false, false, false, false},
 }
